@@ -1,5 +1,7 @@
 import OxiddModel.Util.Proto
 import OxiddModel.Bdd.Model
+import OxiddModel.Bdd.Store
+import OxiddModel.Reorder.Model
 import Std.Data.HashMap
 
 /-!
@@ -134,9 +136,8 @@ def step (s : St) (line : String) : St × String :=
     | none => (s, "bad-op")
   | "order" :: rest =>
     let order := (rest.filter (fun w => !w.contains '=')).filterMap String.toNat?
-    -- full permutations only (partial orders are handled by the reorder model)
-    if order.length = s.n then
-      let l2v := order.toArray
+    if order.all (· < s.n) && order.eraseDups.length = order.length then
+      let l2v := if order.length ≤ 1 then s.l2v else Reorder.newL2v s.l2v s.v2l order
       let v2l := Id.run do
         let mut a := Array.replicate s.n 0
         for l in [0 : s.n] do
@@ -236,6 +237,13 @@ def step (s : St) (line : String) : St × String :=
   | "pickuni" :: _ => (s, "ok")
   | ["gc"] => (s, toString (innerSubtrees (s.h.fold (fun acc _ t => t :: acc) [])).length)
   | ["audit"] => (s, "ok")
+  | ["rcchk"] => (s, "ok")
+  | ["dump"] =>
+    -- meaningful directly after `gc`: the store is exactly the set of reachable nodes
+    let hs := s.h.fold (fun acc _ t => t :: acc) []
+    let store := reachList hs
+    let items := (store.map fun n => s!"{s.showT n}:{rc hs store n}").toArray.qsort (· < ·)
+    (s, s!"{items.size} {" | ".intercalate items.toList}")
   | ["restrict", name, a, b] =>
     match s.h[a]?, s.h[b]? with
     | some f, some c => s.put name (restrict f c)
